@@ -208,5 +208,6 @@ def run(ctx):
     es = ents()
     streams.hist_corr(ctx, ents=es, nhist=ctx.n(16, 150))
     streams.fn_corr(ctx, ents=es, ncases=ctx.n(60, 800))
+    streams.presentation_variants(ctx, fn_ents=es, hist_ents=es)
     random_recall_spec(ctx)
     exhaustive(ctx)
